@@ -69,7 +69,11 @@ class GenericValue(Snapshot):
                 old_value.value = value
                 return
 
-            if type(old_value) is not type(value):
+            if type(old_value) is not type(value) and not (
+                # subclasses of dict (OrderedDict, Counter, ...) are stored as dict
+                type(old_value) is dict
+                and isinstance(value, dict)
+            ):
                 raise UsageError(
                     "snapshot value should not change. Use Is(...) for dynamic snapshot parts."
                 )
